@@ -191,12 +191,12 @@ __CPROVER_ensures(g_hit_num == num && g_hit_sum >= 0 && (unsigned long)g_hit_sum
 ;
 #define WRITTEN(k) ((k) < g_num && g_base + (k) < pages)
 //@loop CachedPA_allocate 1
-//@  VF_REBASE(@p1@, g_base)
-//@  __CPROVER_assigns(@p1@, __CPROVER_object_whole(g_base), g_seq, g_up_alloc)
-//@  __CPROVER_loop_invariant(__CPROVER_same_object(@p1@, g_base) && (size_t)__CPROVER_POINTER_OFFSET(@p1@) <= g_num * sizeof(void *) && (size_t)__CPROVER_POINTER_OFFSET(@p1@) % sizeof(void *) == 0)
-//@  __CPROVER_loop_invariant(g_base + MINCAP(g_num) <= @p1@ && @p1@ <= @l1@ && @l1@ == g_base + g_num)
+//@  VF_REBASE(@p1:pages@, g_base)
+//@  __CPROVER_assigns(@p1:pages@, __CPROVER_object_whole(g_base), g_seq, g_up_alloc)
+//@  __CPROVER_loop_invariant(__CPROVER_same_object(@p1:pages@, g_base) && (size_t)__CPROVER_POINTER_OFFSET(@p1:pages@) <= g_num * sizeof(void *) && (size_t)__CPROVER_POINTER_OFFSET(@p1:pages@) % sizeof(void *) == 0)
+//@  __CPROVER_loop_invariant(g_base + MINCAP(g_num) <= @p1:pages@ && @p1:pages@ <= @l1:pages_end@ && @l1:pages_end@ == g_base + g_num)
 //@  __CPROVER_loop_invariant(g_seq <= SEQ_MAX && g_seq >= __CPROVER_loop_entry(g_seq))
-//@  __CPROVER_loop_invariant(g_up_alloc == g_q_in + (size_t)(@p1@ - g_base) - g_q_out)
+//@  __CPROVER_loop_invariant(g_up_alloc == g_q_in + (size_t)(@p1:pages@ - g_base) - g_q_out)
 //@  __CPROVER_loop_invariant(WRITTEN(g_k1) ==> (TOK(g_seq0) <= (uintptr_t)g_base[g_k1] && (uintptr_t)g_base[g_k1] < TOK(g_seq)))
 //@  __CPROVER_loop_invariant(WRITTEN(g_k2) ==> (TOK(g_seq0) <= (uintptr_t)g_base[g_k2] && (uintptr_t)g_base[g_k2] < TOK(g_seq)))
 //@  __CPROVER_loop_invariant((g_k1 < g_k2 && WRITTEN(g_k2)) ==> (uintptr_t)g_base[g_k1] < (uintptr_t)g_base[g_k2])
@@ -210,9 +210,9 @@ __CPROVER_ensures(g_copied + g_tail == num)
 __CPROVER_ensures(g_up_dealloc == g_q_out + (num - g_q_in))
 ;
 //@loop CachedPA_deallocate 1
-//@  VF_REBASE(@p1@, g_base)
-//@  __CPROVER_assigns(@p1@, g_up_dealloc, g_tail)
-//@  __CPROVER_loop_invariant(__CPROVER_same_object(@p1@, g_base) && @p1@ == g_base + g_copied + g_tail && @p1@ <= @l1@ && @l1@ == g_base + g_num && g_mode == 0)
+//@  VF_REBASE(@p1:pages@, g_base)
+//@  __CPROVER_assigns(@p1:pages@, g_up_dealloc, g_tail)
+//@  __CPROVER_loop_invariant(__CPROVER_same_object(@p1:pages@, g_base) && @p1:pages@ == g_base + g_copied + g_tail && @p1:pages@ <= @l1:pages_end@ && @l1:pages_end@ == g_base + g_num && g_mode == 0)
 //@  __CPROVER_loop_invariant(g_up_dealloc == g_q_out + g_tail && g_copied + g_tail <= g_num && g_copied <= g_num)
 //@end
 
@@ -222,9 +222,9 @@ __CPROVER_assigns(g_up_dealloc, g_q_out, g_mode, g_drained)
 __CPROVER_ensures(g_drained == g_cached && g_up_dealloc == g_cached && g_q_out == g_cached)
 ;
 //@loop CachedPA_CachedPageAllocator_lambda_page_allocator_dtor_CachedPageAllocator_1_op_call 1
-//@  VF_REBASE(@p1@._slot, g_slots)
-//@  __CPROVER_assigns(@p1@, g_up_dealloc, g_drained)
-//@  __CPROVER_loop_invariant(__CPROVER_same_object(@p1@._slot, g_slots) && @p1@._slot == g_slots + g_drained && @p1@._slot <= @p2@._slot && g_mode == 2)
+//@  VF_REBASE(@p1:iter@._slot, g_slots)
+//@  __CPROVER_assigns(@p1:iter@, g_up_dealloc, g_drained)
+//@  __CPROVER_loop_invariant(__CPROVER_same_object(@p1:iter@._slot, g_slots) && @p1:iter@._slot == g_slots + g_drained && @p1:iter@._slot <= @p2:end@._slot && g_mode == 2)
 //@  __CPROVER_loop_invariant(g_up_dealloc == g_drained && g_drained <= g_cached)
 //@end
 #endif
